@@ -225,7 +225,9 @@ func c09ObjProg(s c09Spec) *progCase {
 		body = append(body, stmts[i].st())
 	}
 	body = append(body, Pr(S("end"), V("a"), V("b"), V("e")))
-	return &progCase{P: &Program{Funcs: []*Func{c09Add}, Rules: []*Rule{{Kind: "BEGIN", Body: Blk(body...)}}}}
+	// the body runs once per element of [1,2]: every literal in it is evaluated twice, and nothing of the first round may
+	// reach the second
+	return &progCase{P: &Program{Funcs: []*Func{c09Add}, Rules: []*Rule{{Body: Blk(body...)}}}, Files: []inFile{{"in.json", "[1,2]"}}}
 }
 
 func c09ObjCheck(c *fw.Ctx, s c09Spec) *fw.Violation {
